@@ -81,7 +81,8 @@ def run_case(seed):
     def count(k):
         dist[k] = dist.get(k, 0) + 1
 
-    pf = gen.gen_plotfile(rng, max_blocks=2, payload=rng.choice(['ints', 'random', 'special']))
+    pf = gen.gen_plotfile(rng, max_blocks=2, payload=rng.choice(['ints', 'random', 'special']),
+                          nfields=rng.choice([(1, 9), (1, 9), (10, 13)]))   # 10+ fields: the count changes its number of digits
     keys = c01.reader_keys(pf.fields)
     img = diskimg.image_of(pf)
     path = core.scratch_dir(f"c05_{seed}")
